@@ -74,6 +74,22 @@ def _make_enum(cls, names):
                 c.ensures("token_in_schema[%s]" % m.name, any(lexical_ok(st, SStr([tok])) is True for st in sts))
             else:
                 c.undecided("token_in_schema[%s]" % m.name, "no XSD simple type paired with %s" % cls.__name__)
+        # the declarations themselves (class body of the real source): a member whose integer value collides with an earlier one
+        # silently becomes an alias of it (enum semantics) and loses its own XML token
+        import ast
+        import inspect
+        import textwrap
+
+        for node in ast.parse(textwrap.dedent(inspect.getsource(cls))).body[0].body:
+            if not (isinstance(node, ast.Assign) and len(node.targets) == 1 and isinstance(node.targets[0], ast.Name) and isinstance(node.value, ast.Tuple)
+                    and len(node.value.elts) >= 2 and isinstance(node.value.elts[1], ast.Constant) and isinstance(node.value.elts[1].value, str)):
+                continue
+            nm, tok = node.targets[0].id, node.value.elts[1].value
+            if not tok:
+                continue
+            mem = getattr(cls, nm)
+            c.ensures("declared_token_kept[%s]" % nm, mem.xml_value == tok,
+                      why="%s.%s is declared with XML token %r but is an alias of %s (same integer value), whose token is %r" % (cls.__name__, nm, tok, mem.name, mem.xml_value))
         for alias in names:
             import importlib
 
